@@ -15,7 +15,9 @@ CVC5 = "/usr/bin/cvc5"
 # under a CPU-time limit (RLIMIT_CPU) and z3 under `rlimit`, its deterministic resource counter (roughly 1-3.5 million units per second
 # of solving here, depending on the kind of VC), with a wall-clock backstop only at eight times the nominal budget.
 Z3_RLIMIT_PER_S = 3_500_000
-WALL_BACKSTOP = 8
+WALL_BACKSTOP = 5
+MAX_TAIL = 12
+MAX_PHASE_B = 48
 
 
 def _z3_try(smt2, timeout_ms, seed, deterministic=False):
@@ -73,17 +75,17 @@ def _cvc5_try(smt2, strings, cpu_s=None):
 
 
 def _solve_one(job):
-    """Portfolio for one VC.  z3 is unstable on identical input (sequence solver; quantified array VCs are solved in seconds under one random
-    seed and not at all under another), so the schedule is: z3 seed 0 (short) -> [strings: cvc5 first] -> z3 seeds 1..3 (short) -> cvc5 ->
-    z3 seeds 4..9.  Only `unsat` discharges, only `sat` refutes; everything else stays `unknown`."""
-    idx, smt2, use_cvc5, strings = job[:4]
-    quick = len(job) > 4 and job[4]
+    """One phase of the portfolio for one VC.  z3 is unstable on identical input (sequence solver; quantified array VCs are solved in seconds
+    under one random seed and not at all under another), so the schedule is, in three phases:
+      A  z3 seed 0 (wall-clock)                                                      - settles almost everything
+      B  cvc5 (short; strings: its full budget) then z3 seeds 1..3 (wall-clock)      - for what A left open
+      C  cvc5 with its full CPU budget, then z3 under six seeds with `rlimit`        - load-independent tail for what B left open
+    Only `unsat` discharges, only `sat` refutes; everything else stays `unknown`."""
+    idx, smt2, use_cvc5, strings, quick, phase = job
     t0 = time.time()
     res, backend, info = "unknown", "z3-5.1.0", ""
     if quick:
         use_cvc5 = False
-    budget_ms = Z3_TIMEOUT_MS
-    first = 5000 if quick else (15000 if use_cvc5 else budget_ms)
 
     def z3_stage(seeds, each_ms, deterministic=False):
         nonlocal res, info, backend
@@ -112,13 +114,16 @@ def _solve_one(job):
             info += " | cvc5 error " + repr(e)
         return False
 
-    done = z3_stage([0], first)
-    if not done and not quick and use_cvc5:
-        # fast path (wall-clock): a SHORT cvc5 attempt straight after the first z3 attempt (it decides in 1-3 s the quantified array VCs z3 gives
-        # up on under most seeds), then z3 under other seeds (which settle most of the rest within seconds);
-        # load-independent tail: cvc5 with its full CPU budget, then z3 under every seed with a deterministic resource limit
-        done = cvc5_stage(60 if strings else 10) or z3_stage([1, 2, 3], 15000 if strings else 10000) or (not strings and cvc5_stage()) \
-            or z3_stage([4, 5, 6, 0, 1, 2], 20000, deterministic=True)
+    if phase == "A":
+        z3_stage([0], 5000 if quick else (15000 if use_cvc5 else Z3_TIMEOUT_MS))
+    elif phase == "B":
+        cvc5_stage(30 if strings else 10) or z3_stage([1, 2] if strings else [1, 2, 3], 10000)
+    elif strings:
+        # string VCs: z3's resource counter advances slowly in the sequence solver (the wall-clock backstop would be what ends each attempt),
+        # and cvc5 has had its say in phase B: three short deterministic attempts only
+        z3_stage([4, 5, 6], 8000, deterministic=True)
+    else:
+        cvc5_stage() or z3_stage([4, 5, 6, 0, 1, 2], 20000, deterministic=True)
     return idx, res, backend, time.time() - t0, info
 
 
@@ -134,16 +139,40 @@ def discharge(obligations, jobs=None, use_cvc5=True):
             continue
         smt2 = ob.smt2()
         strings = "String" in smt2 or "str." in smt2
+        ob.status, ob.time, ob.info, ob.backend = "unknown", 0.0, "", "z3-5.1.0"
         work.append((i, smt2, use_cvc5, strings, ob.kind == "canary"))
-    if work:
-        if len(work) == 1 or jobs == 1:
-            results = [_solve_one(w) for w in work]
+
+    def run_phase(items, phase):
+        js = [w + (phase,) for w in items]
+        if not js:
+            return
+        if len(js) == 1 or jobs == 1:
+            results = [_solve_one(w) for w in js]
         else:
             ctx = mp.get_context("fork")
-            with ctx.Pool(min(jobs, len(work))) as pool:
-                results = pool.map(_solve_one, work, chunksize=1)
+            with ctx.Pool(min(jobs, len(js))) as pool:
+                results = pool.map(_solve_one, js, chunksize=1)
         for idx, res, backend, t, info in results:
             ob = obligations[idx]
-            ob.backend, ob.time, ob.info = backend, t, info
-            ob.status = {"unsat": "discharged", "sat": "refuted"}.get(res, "unknown")
+            ob.time += t
+            if res in ("unsat", "sat"):
+                ob.backend, ob.info = backend, info
+                ob.status = {"unsat": "discharged", "sat": "refuted"}[res]
+            else:
+                ob.info = ((ob.info + " | ") if ob.info else "") + f"{phase}: {info}"
+
+    run_phase(work, "A")
+    # phases B and C only for a bounded number of VCs per function: on the unchanged tree phase A leaves a handful open (a dozen or two for the
+    # heaviest lemma); a function with many more open VCs has been CHANGED into something the solvers cannot decide, and minutes spent on each of
+    # them would only delay the verdict "undecided"
+    open_b = [w for w in work if obligations[w[0]].status == "unknown" and not w[4] and use_cvc5]
+    run_phase(open_b[:MAX_PHASE_B], "B")
+    open_c = [w for w in open_b[:MAX_PHASE_B] if obligations[w[0]].status == "unknown"]
+    run_phase(open_c[:MAX_TAIL], "C")
+    for w in open_b[MAX_PHASE_B:] + open_c[MAX_TAIL:]:
+        obligations[w[0]].info = (obligations[w[0]].info or "") + " | later phases skipped (too many open VCs in this function)"
+    if os.environ.get("VERIF_SOLVER_STATS") and work:
+        import sys
+        print(f"SOLVER-STATS vcs={len(work)} open-after-A={len(open_b)} open-after-B={len(open_c)} "
+              f"open-at-end={sum(1 for w in work if obligations[w[0]].status == 'unknown')}", file=sys.stderr)
     return obligations
